@@ -328,14 +328,14 @@ func specLkAfter(kind, lk int) int {
 
 //@ contract (*mappedFile).load32
 //@   requires m.mapping != nil
-//@   ensures int64(off) >= int64(len(m.mapping.Data)) ==> result == 0
+//@   ensures int64(off)+4 > int64(len(m.mapping.Data)) ==> result == 0
 //@   ensures int64(off)+4 <= int64(len(m.mapping.Data)) ==> result == le32(m.mapping.Data, off)
 //@   ensures $private ==> unchanged(m.mapping.Data)
 //@   modifies elems(m.mapping.Data)
 
 //@ contract (*mappedFile).cas32
 //@   requires m.mapping != nil
-//@   requires int64(off) < int64(len(m.mapping.Data))
+//@   requires int64(off)+4 <= int64(len(m.mapping.Data))
 //@   modifies elems(m.mapping.Data)
 
 // entryAt reads a record; the postcondition is the documented record layout:
